@@ -57,7 +57,8 @@ class Report:
             self.samples.append(x)
 
     def fail(self, kind, klass, inp, detail):
-        if len(self.failures) < 2000:
+        # capped per kind: a flood of correspondence disagreements must not crowd out the oracle failures (the failing inputs)
+        if sum(1 for f in self.failures if f["kind"] == kind) < (400 if kind == "corr" else 2000):
             self.failures.append({"kind": kind, "klass": klass, "input": inp, "detail": detail})
 
 
